@@ -21,3 +21,10 @@ JOBS = [
     J("w_taggedGet64Quick"),
     J("w_taggedRoundTrip", props=("C01",)),
 ]
+
+JOBS += [
+    J("w_taggedMono", props=("C04",)),
+    J("w_taggedConstants", props=("C04",)),
+    J("w_taggedOrder", props=("C05",), unwind=10),
+    J("w_taggedOrderPair", props=("C05",), unwind=19, timeout=900),
+]
